@@ -16,7 +16,7 @@ use std::sync::{Arc, Mutex};
 pub const GROUPS: &[&str] = &[
     "usart_dec", "usart_enc", "usart_rt", "can_dec", "can_enc", "can_rt", "to_frames", "frag_rt", "builder", "ev_enc", "ev_rt", "ev_dec",
     "ev_cross", "ev_xenc", "rx_usart", "rx_serial", "rx_can", "rxh_usart", "rxh_serial", "rxh_can", "tx_usart", "tx_can", "tx_serial", "loop_usart",
-    "loop_serial", "loop_can", "e2e_usart", "e2e_serial", "e2e_can", "proto", "usart_dec_enum", "can_dec_enum", "builder_enum", "psend_usart", "psend_can", "psend_serial", "frt_can", "frt_usart", "frag_rt_enum", "to_frames_enum", "sched_usart_enum", "sched_serial_enum", "sched_can_enum", "tx_usart_enum", "tx_can_enum", "tx_serial_enum",
+    "loop_serial", "loop_can", "e2e_usart", "e2e_serial", "e2e_can", "proto", "usart_dec_enum", "can_dec_enum", "builder_enum", "psend_usart", "psend_can", "psend_serial", "frt_can", "frt_usart", "frag_rt_enum", "to_frames_enum", "ev_ref", "sched_usart_enum", "sched_serial_enum", "sched_can_enum", "tx_usart_enum", "tx_can_enum", "tx_serial_enum",
 ];
 
 fn guard<T>(f: impl FnOnce() -> T) -> Option<T> {
@@ -498,6 +498,13 @@ fn gen_event_text(r: &mut Rng, i: u64) -> String {
         return format!("k4:{:04x}:{:04x}:{:04x}:g{}x{}", r.u16(), r.u16(), len, r.below(1000), len);
     }
     Ev::gen((i % 16) as usize, r).show()
+}
+
+/// `ev_ref <event>`: the generator's own reference encoding (no code under test involved); the driver compares it with
+/// the published layout of the Lean specification, so that a slip in the harness' reference encoder is noticed
+fn exec_ev_ref(t: &[&str]) -> Option<String> {
+    let e = Ev::parse(t.first()?)?;
+    Some(masked_packet(&e, &e.ref_packet()))
 }
 
 fn exec_ev_enc(t: &[&str]) -> Option<String> {
@@ -1967,6 +1974,7 @@ impl Gen {
             "frt_can" => format!("frt can {}", gen_packet_text(r, i)),
             "frt_usart" => format!("frt usart {}", gen_packet_text(r, i)),
             "ev_enc" => format!("ev_enc {}", gen_event_text(r, i)),
+            "ev_ref" => format!("ev_ref {}", gen_event_text(r, i)),
             "ev_rt" => format!("ev_rt {}", gen_event_text(r, i)),
             "ev_dec" => format!("ev_dec {}", gen_ev_dec(r, i, &self.sweep)),
             "ev_cross" => format!("ev_cross {}", gen_ev_cross(r, i)),
@@ -2037,6 +2045,7 @@ pub fn exec(input: &str) -> Option<String> {
         "frt" => exec_frt(rest),
         "builder" => exec_builder(rest),
         "ev_enc" => exec_ev_enc(rest),
+        "ev_ref" => exec_ev_ref(rest),
         "ev_rt" => exec_ev_rt(rest),
         "ev_dec" => exec_ev_dec(rest),
         "ev_cross" => exec_ev_cross(rest),
